@@ -86,11 +86,12 @@ Theorem C07_contract_runs : forall (ths : list (list (site * (snode -> node)))),
 Proof. exact runs_contract. Qed.
 Print Assumptions C07_contract_runs.
 
-(** NAME RESOLUTION IS STABLE: every site inside pathNode.pathNodeFor / pathNode.nameFor -- where a handler finds the
-    node it will lock for a child, or the name it will hand to the backend -- is reached with renameMu held
-    (a rename re-binds names to nodes under renameMu.W alone); so the node locked is the node the name denotes
-    when the backend call runs.  >= 20 such sites exist in the table. *)
-Theorem C07_resolution_under_rename_lock : (forall st, In st sites -> resolve_ok st = true) /\ Nat.leb 20 resolve_sites = true.
+(** NAME RESOLUTION IS STABLE: every access to a path node's [childNodes] map (the name -> node binding: where
+    pathNodeFor finds the node a handler will lock for a child), whichever function makes it, and every site
+    inside pathNode.nameFor (the name a handler hands to the backend) is reached with renameMu held (a rename
+    re-binds names to nodes under renameMu.W alone); so the node locked is the node the name denotes when the
+    backend call runs.  Such sites exist in the table. *)
+Theorem C07_resolution_under_rename_lock : (forall st, In st sites -> resolve_ok st = true) /\ Nat.leb 1 resolve_sites = true.
 Proof. split; [exact resolves_ok|exact resolves_present]. Qed.
 Print Assumptions C07_resolution_under_rename_lock.
 
